@@ -37,6 +37,9 @@ func init() {
 			"(R02.7) statement lists are optimized before their scope is renamed; (R02.8) the rename switch is restored on all paths. Not covered: the dependency's scope analysis, getName's arithmetic, shorthand re-expansion.",
 		Run: runC02,
 	})
+	mutant(&Mutant{Name: "c02-hoisted-ref-registered-in-one-scope", Property: "C02", File: "js/vars.go",
+		Old: "\t\t\t\t\t\ts := decl.Scope\n\t\t\t\t\t\tfor s != nil && s != s.Func {\n\t\t\t\t\t\t\ts.AddUndeclared(ref)\n\t\t\t\t\t\t\ts = s.Parent\n\t\t\t\t\t\t}\n", New: "\t\t\t\t\t\tif s := decl.Scope; s != s.Func {\n\t\t\t\t\t\t\ts.AddUndeclared(ref)\n\t\t\t\t\t\t}\n",
+		Rule: "R02.5", Construct: "hoisted ref"})
 	mutant(&Mutant{Name: "c02-try-body-not-renamed", Property: "C02", File: "js/js.go",
 		Old: "\t\tm.renamer.renameScope(stmt.Body.Scope)\n\t\tm.minifyBlockStmt(stmt.Body)\n\t\tif stmt.Catch != nil {", New: "\t\tm.minifyBlockStmt(stmt.Body)\n\t\tif stmt.Catch != nil {",
 		Rule: "R02.1", Construct: "case *js.TryStmt/call minifyBlockStmt(stmt.Body)"})
@@ -788,9 +791,25 @@ func (c *Ctx) r025(pk *packages.Package) {
 		if p != nil {
 			passesLoopCond := false
 			for _, y := range p {
-				if y.Kind == flow.KCond && strings.Contains(str(y.Expr), ".Func") {
-					passesLoopCond = true
+				if y.Kind != flow.KCond || !strings.Contains(str(y.Expr), ".Func") {
+					continue
 				}
+				// it must be the condition of the walking loop: a for statement whose body registers ref and steps to Parent
+				ast.Inspect(fd.Body, func(z ast.Node) bool {
+					fs, ok := z.(*ast.ForStmt)
+					if !ok || fs.Cond == nil || y.Expr.Pos() < fs.Cond.Pos() || y.Expr.End() > fs.Cond.End() {
+						return true
+					}
+					steps := flow.Contains(fs.Body, func(q ast.Node) bool {
+						as, ok := q.(*ast.AssignStmt)
+						return ok && len(as.Lhs) == 1 && len(as.Rhs) == 1 && str(as.Rhs[0]) == str(as.Lhs[0])+".Parent"
+					})
+					registers := len(findCalls(info, fs.Body, false, pjs+".(Scope).AddUndeclared")) > 0
+					if steps && registers {
+						passesLoopCond = true
+					}
+					return true
+				})
 			}
 			if passesLoopCond {
 				p = nil
